@@ -42,8 +42,9 @@ PLANS = {
             S("c04_gone", 600, 18000),     # REP replies to a requester that has gone away: the request is consumed all the same
             S("c04_dead", 900, 27000),     # guessed ids of requests that died before the wire (timed out, cancelled, superseded)
             S("c04_latecancel", 600, 20000),  # a cancel that lost the race against the reply must not touch the context's next request (scenarios/c04b_latecancel.cc)
+            S("c04_repqueue", 800, 25000),  # a REP context's reply queued behind a busy connection; the context receives and answers a newer request meanwhile, the queued send is superseded / cancelled / times out (scenarios/c04c_repqueue.cc)
         ],
-        "assumptions": ["the adversarial replier is a raw-mode REP socket (it controls the reply id word completely); requesters in part B are raw-mode REQ sockets"],
+        "assumptions": ["the adversarial replier is a raw-mode REP socket (it controls the reply id word completely); requesters in part B are raw-mode REQ sockets; in c04_repqueue they are raw wire peers that read only when the script lets them, with 0.5-4 kB kernel buffers"],
     },
     "C05": {
         "level": "exploration",
